@@ -339,6 +339,44 @@ def run(ctx):
         ('fold', 1, lambda t: etl.fold(t, 'x', lambda a, b: a + b, 'v')), ('mergeduplicates', 1, lambda t: etl.mergeduplicates(t, 'x')),
         ('groupcountdistinctvalues', 1, lambda t: etl.groupcountdistinctvalues(t, 'x', 'v')),
     ], 480 if ctx.thorough() else 120)
+    # ---- a multi-field aggregation view configured (and re-configured) through item assignment: every pass applies the functions
+    # it has at that moment; table containers whose len() is not rows + 1 (only __iter__ is part of the table convention)
+    class _Records(object):
+        def __init__(self, rows):
+            self.rows = rows
+        def __iter__(self):
+            return iter(self.rows)
+        def __len__(self):
+            return len(self.rows) - 1 if len(self.rows) > 2 else 7       # "number of records", or anything else
+    for ci in range(80 if ctx.thorough() else 20):
+        T = [['k', 'v']] + [[rng.choice([1, 2, 3]), rng.choice([0, 1, 5, 7])] for _ in range(rng.choice([1, 2, 4, 6]))]
+        idx, gs = ref_groups(T, 'k')
+        ref = lambda f: [('k', 'x')] + [(k, f([r[1] for r in rows])) for k, rows in gs]
+        v = etl.aggregate(T, 'k')
+        v['x'] = 'v', min
+        p1 = [tuple(r) for r in v]
+        v['x'] = 'v', max
+        p2 = [tuple(r) for r in v]
+        v['x'] = ('v', sum)
+        p3 = [tuple(r) for r in v]
+        ctx.case(('multiaggregate-reconfigured', repr(T)))
+        ctx.count('op:aggregate[item assignment]')
+        if p1 != ref(min) or p2 != ref(max) or p3 != ref(sum):
+            ctx.spec_fail('aggregate|item-assignment|stale', 'a multi-field aggregation view whose aggregator was replaced by item assignment does not apply the current function',
+                          {'table': repr(T), 'pass with min': repr(p1), 'pass with max': repr(p2), 'pass with sum': repr(p3)})
+        R = _Records(T)
+        n = len(T) - 1
+        try:
+            got = (list(etl.aggregate(R, None, len)), etl.nrows(R), sum(c for _, c in etl.valuecounter(R, 'k').items()),
+                   sum(r[1] for r in list(etl.aggregate(R, 'k', len))[1:]))
+        except Exception as e:   # noqa
+            got = repr(e)
+        ctx.case(('sized-container', repr(T)))
+        ctx.count('sized-container')
+        if got != ([('value',), (n,)], n, n, n):
+            ctx.spec_fail('aggregate|sized-container', 'row counts over a table container with its own __len__ do not add up to the number of data rows',
+                          {'table': repr(T), 'len(container)': len(R), '(aggregate(None, len), nrows, valuecounter total, group counts total)': repr(got), 'nrows': n})
+
     util.positional_call_cases(etl, rng, ctx, ['mergeduplicates'], 120 if ctx.thorough() else 36, 1)
 
 def replay(d):
